@@ -36,6 +36,8 @@ pub struct Mutex<T> {
 pub struct MutexGuard<'a, T> {
     m: &'a Mutex<T>,
     g: Option<SGuard<'a, T>>,
+    /// released as part of Condvar::wait: releasing and starting to wait is one step
+    quiet: bool,
 }
 
 impl<T> Mutex<T> {
@@ -62,7 +64,7 @@ impl<T> Mutex<T> {
             Ok(g) => g,
             Err(e) => e.into_inner(),
         };
-        MutexGuard { m: self, g: Some(g) }
+        MutexGuard { m: self, g: Some(g), quiet: false }
     }
 
     pub fn lock(&self) -> LockResult<MutexGuard<'_, T>> {
@@ -87,8 +89,13 @@ impl<T> Drop for MutexGuard<'_, T> {
     fn drop(&mut self) {
         self.g = None;
         self.m.held.store(false, Ordering::SeqCst);
-        if let Some((rt, _)) = cur() {
+        if let Some((rt, me)) = cur() {
             rt.wake_obj(self.m.id);
+            // scheduling point: what a thread does right after leaving a critical section (an atomic counter
+            // updated outside the lock, say) can be overtaken by another thread that takes the lock now
+            if !self.quiet && !std::thread::panicking() {
+                rt.yield_now(me);
+            }
         }
     }
 }
@@ -122,6 +129,8 @@ impl Condvar {
         let m = guard.m;
         let deadline = dur.map(|d| rt.now().saturating_add(d.as_nanos() as u64));
         // release the mutex and start waiting atomically (we hold the baton)
+        let mut guard = guard;
+        guard.quiet = true;
         drop(guard);
         let fired = rt.block_cv(me, self.id, deadline);
         // re-acquire; a woken or timed-out waiter still has to win the mutex
